@@ -297,6 +297,9 @@ func runC06(ctx *runCtx) {
 		"CloseError.bytes/bytesErr for codes x reason lengths 0..130; parseClosePayload on all 65536 two-byte prefixes (+reasons, + the 0- and 1-byte payloads); " +
 		"end to end on real Conns against a raw peer: local Close(code, reason) with echo, peer-initiated Close, pending read during Close, every order of Close/CloseNow calls; both roles. " +
 		"distinct = the case tuple; non-trivial = all"
+	if cirTraceReplay(ctx) {
+		return
+	}
 	if ctx.replay != "" {
 		var cc closeCase
 		if err := loadReplay(ctx.replay, &cc); err == nil {
@@ -470,6 +473,7 @@ func runC06(ctx *runCtx) {
 			rep.violate(Violation{Kind: "property", Shape: r.sh, What: r.w, Replay: cc})
 		}
 	}
+	cirTraceValidation(ctx, cirTraceN(ctx))
 	rep.sample(cases[0])
 	rep.sample(cases[len(cases)/2])
 	rep.sample(cases[len(cases)-1])
